@@ -141,6 +141,132 @@ def ref_keys(feats, spec, strategy):
     return keys, False
 
 
+def mk_case(scenario, lines, feats, cfg, **kw):
+    """a self-contained case: the lines, the generator's record of every line, the configuration (id_spec, strategy)"""
+    return dict({"scenario": scenario, "input": list(lines), "records": list(feats), "parallel": ["records"],
+                 "config": cfg.to_json()}, **kw)
+
+
+def attrs_of(f):
+    return [(k, list(v)) for k, v in f["attrs"]]
+
+
+def check_keys(case, feats, spec, db, rep, res):
+    """the stored keys against id_spec.  returns the keys when they are as prescribed (the look-ups can be judged),
+    else None"""
+    want, rejected = ref_keys(feats, spec, "create_unique")
+    if rejected:
+        res.count("multi_valued_rejected")
+        if db is not None or rep != "err ValueError":
+            common.fail(res, case, "multi_valued_id_not_rejected", "an id attribute with several values was not rejected with ValueError",
+                        observed=rep, expected="err ValueError")
+        return None
+    if want is None:
+        res.count("create_unique_name_taken")
+        return None
+    if db is None:
+        common.fail(res, case, "create_db_raised", "create_db raised although every line has a well-defined key: " + rep,
+                    error=rep, observed=rep, expected="ok")
+        return None
+    got = [str(x["id"]) for x in dbside.rows_of(db)]
+    if got != want:
+        common.fail(res, case, "keys_not_id_spec", "keys do not follow id_spec", observed=got, expected=want)
+        return None
+    return got
+
+
+def check_lookups(case, feats, lines, db, got, res):
+    import gffutils
+    if len(set(got)) != len(got):
+        common.fail(res, case, "keys_not_unique", "keys are not unique", observed=got)
+    for k, f, line in zip(got, feats, lines):
+        try:
+            g = db[k]
+            cols = [g.seqid, g.source, g.featuretype, str(g.start), str(g.end), g.strand]
+            wantc = [f["seqid"], f["source"], f["ftype"], str(f["start"]), str(f["end"]), f["strand"]]
+            if g.id != k or cols != wantc or [(a, list(b)) for a, b in g.attributes._d.items()] != attrs_of(f):
+                common.fail(res, case, "lookup_wrong", "db[key] is not the feature stored under that key",
+                            key=k, observed=str(g), expected=line)
+            if db[g].id != k:
+                common.fail(res, case, "lookup_by_feature_wrong", "db[feature] does not use feature.id", key=k)
+        except Exception as ex:
+            common.fail(res, case, "lookup_raised", "db[%r] raised %r" % (k, ex), error=dbside.err_name(ex), key=k, observed=repr(ex))
+    for absent in ["__absent__", got[0] + "_zz", ""]:
+        if absent in got:
+            continue
+        try:
+            db[absent]
+            common.fail(res, case, "absent_key_found", "an absent key did not raise FeatureNotFoundError", key=absent)
+        except gffutils.FeatureNotFoundError:
+            pass
+        except Exception as ex:
+            common.fail(res, case, "absent_key_wrong_exception", "an absent key raised %r instead of FeatureNotFoundError" % ex,
+                        key=absent, observed=repr(ex))
+
+
+def check_delete(case, db, got, res):
+    """look-ups stay exact after deletions on the same FeatureDB object: the victims are looked up, deleted (by id or
+    as Feature objects), and every key is looked up again"""
+    import gffutils
+    victims = [v for v in case["victims"] if v in got]
+    if not victims:
+        return
+    for v in victims:
+        db[v]                                   # looked up before the deletion
+    if case["delete_by"] == "features":
+        db.delete([db[v] for v in victims], make_backup=False)
+    else:
+        db.delete(list(victims), make_backup=False)
+    for k in got:
+        try:
+            g = db[k]
+            if k in victims:
+                common.fail(res, case, "deleted_feature_returned", "db[key] returned a feature that was deleted (FeatureNotFoundError "
+                            "expected)", key=k, deleted=victims, observed=str(g), expected="FeatureNotFoundError")
+            elif g.id != k:
+                common.fail(res, case, "lookup_wrong_after_delete", "db[key] wrong after a deletion", key=k, deleted=victims)
+        except gffutils.FeatureNotFoundError:
+            if k not in victims:
+                common.fail(res, case, "lookup_lost_after_delete", "db[key] lost a feature that was not deleted", key=k, deleted=victims)
+
+
+GTF_DEFAULT = [gen_db.gtf_line("chr1", "gene", 1, 100, "+", [("gene_id", ["G"])]),
+               gen_db.gtf_line("chr1", "transcript", 1, 100, "+", [("gene_id", ["G"]), ("transcript_id", ["T"])]),
+               gen_db.gtf_line("chr1", "exon", 1, 50, "+", [("gene_id", ["G"]), ("transcript_id", ["T"])]),
+               gen_db.gtf_line("chr1", "exon", 60, 100, "+", [("gene_id", ["G"]), ("transcript_id", ["T"])])]
+
+
+def check_gtf_default(ctx, case, res):
+    """default id_spec by format: GTF default is the dict {gene: gene_id, transcript: transcript_id}"""
+    path = dbside.write_lines(os.path.join(ctx.scratch, "c04.gtf"), case["input"])
+    db, rep = dbside.py_create(path, dbside.Cfg.from_json(case["config"]))
+    got = [str(x["id"]) for x in dbside.rows_of(db)] if db else rep
+    if got != case["expected_keys"]:
+        common.fail(res, case, "gtf_default_keys", "default GTF id_spec: keys are not gene_id / transcript_id / <featuretype>_<n>",
+                    observed=got, expected=case["expected_keys"])
+
+
+def judge(ctx, case):
+    res = common.Result("C04")
+    if case["scenario"] == "gtf_default_idspec":
+        check_gtf_default(ctx, case, res)
+        return res
+    lines, feats = case["input"], case["records"]
+    if len(lines) != len(feats):
+        return res
+    cfg = dbside.Cfg.from_json(case["config"])
+    path = dbside.write_lines(os.path.join(ctx.scratch, "c04.gff3"), lines)
+    db, rep = dbside.py_create(path, cfg)
+    got = check_keys(case, feats, cfg.idspec, db, rep, res)
+    if got is None:
+        return res
+    if case["scenario"] == "import":
+        check_lookups(case, feats, lines, db, got, res)
+    elif case["scenario"] == "delete_lookup":
+        check_delete(case, db, got, res)
+    return res
+
+
 def run(ctx):
     import gffutils
     res = common.Result("C04")
@@ -160,53 +286,15 @@ def run(ctx):
         db, rep = dbside.py_create(path, cfg)
         res.evaluations += 1
         res.count("spec_" + spec.kind + "_" + (spec.form if spec.kind == "L" else ""))
-        want, rejected = ref_keys(feats, spec, "create_unique")
         inp = {"lines": lines, "id_spec": spec.describe(), "merge_strategy": "create_unique"}
+        case = mk_case("import", lines, feats, cfg)
         cmds.append(dbside.cmd_create(lines, cfg)); exp.append(rep); tags.append(("create_db", repr(inp)))
-        if rejected:
-            res.count("multi_valued_rejected")
-            if db is not None or rep != "err ValueError":
-                res.oracle_failures.append(("an id attribute with several values was not rejected with ValueError",
-                                            dict(inp, result=rep)))
-            continue
-        if want is None:
-            res.count("create_unique_name_taken")
-            continue
-        if db is None:
-            res.oracle_failures.append(("create_db raised although every line has a well-defined key: " + rep, inp))
-            continue
-        rows = dbside.rows_of(db)
-        got = [str(x["id"]) for x in rows]
-        if got != want:
-            res.oracle_failures.append(("keys do not follow id_spec", dict(inp, keys=got, expected=want)))
+        got = check_keys(case, feats, spec, db, rep, res)
+        if got is None:
             continue
         if any(k != (dict(f["attrs"]).get("ID") or [None])[0] for k, f in zip(got, feats)):
             res.nontriv((tuple(lines), spec.describe()))
-        if len(set(got)) != len(got):
-            res.oracle_failures.append(("keys are not unique", dict(inp, keys=got)))
-        # look-ups
-        for k, f, line in zip(got, feats, lines):
-            try:
-                g = db[k]
-                cols = [g.seqid, g.source, g.featuretype, str(g.start), str(g.end), g.strand]
-                wantc = [f["seqid"], f["source"], f["ftype"], str(f["start"]), str(f["end"]), f["strand"]]
-                if g.id != k or cols != wantc or [(a, list(b)) for a, b in g.attributes._d.items()] != f["attrs"]:
-                    res.oracle_failures.append(("db[key] is not the feature stored under that key",
-                                                dict(inp, key=k, returned=str(g), line=line)))
-                if db[g].id != k:
-                    res.oracle_failures.append(("db[feature] does not use feature.id", dict(inp, key=k)))
-            except Exception as ex:
-                res.oracle_failures.append(("db[%r] raised %r" % (k, ex), inp))
-        for absent in ["__absent__", got[0] + "_zz", ""]:
-            if absent in got:
-                continue
-            try:
-                db[absent]
-                res.oracle_failures.append(("an absent key did not raise FeatureNotFoundError", dict(inp, key=absent)))
-            except gffutils.FeatureNotFoundError:
-                pass
-            except Exception as ex:
-                res.oracle_failures.append(("an absent key raised %r instead of FeatureNotFoundError" % ex, inp))
+        check_lookups(case, feats, lines, db, got, res)
         cmds.append("dump"); exp.append(dbside.dump(db)); tags.append(("tables after import", repr(inp)))
         cmds.append("get " + enc(got[-1])); exp.append("IDONLY " + got[-1]); tags.append(("__getitem__", repr(inp)))
         cmds.append("get " + enc("__absent__")); exp.append("err FeatureNotFoundError")
@@ -214,38 +302,15 @@ def run(ctx):
         # look-ups stay exact after deletions on the same FeatureDB object (by id and by Feature object)
         if len(got) >= 2 and i % 2 == 0:
             victims = r.sample(got, r.randrange(1, min(3, len(got)) + 0))
-            for v in victims:
-                db[v]                                   # looked up before the deletion
-            if r.random() < 0.5:
-                db.delete([db[v] for v in victims], make_backup=False)
-            else:
-                db.delete(list(victims), make_backup=False)
-            for k in got:
-                try:
-                    g = db[k]
-                    if k in victims:
-                        res.oracle_failures.append(("db[key] returned a feature that was deleted (FeatureNotFoundError "
-                                                    "expected)", dict(inp, key=k, deleted=victims)))
-                    elif g.id != k:
-                        res.oracle_failures.append(("db[key] wrong after a deletion", dict(inp, key=k)))
-                except gffutils.FeatureNotFoundError:
-                    if k not in victims:
-                        res.oracle_failures.append(("db[key] lost a feature that was not deleted", dict(inp, key=k, deleted=victims)))
+            by = "features" if r.random() < 0.5 else "ids"
+            check_delete(mk_case("delete_lookup", lines, feats, cfg, victims=victims, delete_by=by), db, got, res)
             cmds.append("delete " + dbside.enc_list(victims)); exp.append("ok"); tags.append(("delete", repr(inp)))
             cmds.append("get " + enc(victims[0])); exp.append("err FeatureNotFoundError"); tags.append(("__getitem__ after delete", repr(inp)))
         if len(res.samples) < 3:
             res.sample(dict(inp, keys=got))
-    # default id_spec by format: GTF default is the dict {gene: gene_id, transcript: transcript_id}
-    gtf = [gen_db.gtf_line("chr1", "gene", 1, 100, "+", [("gene_id", ["G"])]),
-           gen_db.gtf_line("chr1", "transcript", 1, 100, "+", [("gene_id", ["G"]), ("transcript_id", ["T"])]),
-           gen_db.gtf_line("chr1", "exon", 1, 50, "+", [("gene_id", ["G"]), ("transcript_id", ["T"])]),
-           gen_db.gtf_line("chr1", "exon", 60, 100, "+", [("gene_id", ["G"]), ("transcript_id", ["T"])])]
-    path = dbside.write_lines(os.path.join(ctx.scratch, "c04.gtf"), gtf)
-    db, rep = dbside.py_create(path, dbside.Cfg(disG=True, disT=True))
-    got = [str(x["id"]) for x in dbside.rows_of(db)] if db else rep
-    if got != ["G", "T", "exon_1", "exon_2"]:
-        res.oracle_failures.append(("default GTF id_spec: keys are not gene_id / transcript_id / <featuretype>_<n>",
-                                    {"lines": gtf, "keys": got}))
+    check_gtf_default(ctx, {"scenario": "gtf_default_idspec", "input": GTF_DEFAULT, "no_shrink": True,
+                            "config": dbside.Cfg(disG=True, disT=True).to_json(),
+                            "expected_keys": ["G", "T", "exon_1", "exon_2"]}, res)
     res.evaluations += 1
     out = ctx.model(cmds)
     if out is not None:
@@ -260,10 +325,9 @@ def run(ctx):
                 res.corr_disagreements.append((comp, inp[:800], m[:800], e[:800]))
     res.assumptions = ["':start:'/':end:' specs are used with integer coordinates only (a '.' coordinate would give a NULL key)",
                        "callables are the zoo of harness/dbside.py, mirrored in GffModel/ProtoDb.lean"]
+    common.shrink_first_failure(res, lambda case: judge(ctx, case))
     return res
 
 
 def replay(ctx, payload):
-    res = common.Result("C04")
-    print("replay:", payload.get("what"), payload.get("input"))
-    return res
+    return common.replay_failure("C04", payload, lambda case: judge(ctx, case))
